@@ -374,19 +374,23 @@ class GPTNeoXKFACPreconditioner(BaseKFACPreconditioner):
 
         for found_name, layer_state_dict in layers.items():
             for name, layer in self._layers.values():
-                if (
-                    found_name == name
-                    and cast(
-                        GPTNeoXAssignment,
-                        self._assignment,
-                    ).factor_worker(name, 'A')
-                    == get_rank()
-                ):
+                if found_name == name:
                     assert isinstance(layer_state_dict['A'], torch.Tensor)
                     assert isinstance(layer_state_dict['G'], torch.Tensor)
 
+                    # Every rank restores the factors because the factor that
+                    # is not sharded (A for column parallel layers, G for
+                    # row parallel layers) is a running average kept on, and
+                    # averaged over, all ranks of the pipeline stage.
                     layer.load_state_dict(layer_state_dict)
-                    if compute_inverses:
+                    if (
+                        compute_inverses
+                        and cast(
+                            GPTNeoXAssignment,
+                            self._assignment,
+                        ).factor_worker(name, 'A')
+                        == get_rank()
+                    ):
                         layer.compute_a_inv(damping=self.damping)
                         layer.compute_g_inv(damping=self.damping)
 
@@ -448,24 +452,25 @@ class GPTNeoXKFACPreconditioner(BaseKFACPreconditioner):
             return
 
         for name, layer in self._layers.values():
-            if (
-                cast(GPTNeoXAssignment, self._assignment).factor_worker(
-                    name,
-                    'A',
+            # Every rank restores the factors (see load_state_dict()).
+            filepath = os.path.join(self.factor_checkpoint_dir, name)
+            if os.path.exists(filepath):
+                logger.info(
+                    f'loading KFAC factors for {name} on rank '
+                    f'{get_rank()}',
                 )
-                == get_rank()
-            ):
-                filepath = os.path.join(self.factor_checkpoint_dir, name)
-                if os.path.exists(filepath):
-                    logger.info(
-                        f'loading KFAC factors for {name} on rank '
-                        f'{get_rank()}',
-                    )
-                    state_dict = torch.load(filepath)
-                    layer.load_state_dict(state_dict)
-                    if compute_inverses:
-                        layer.compute_a_inv(damping=self.damping)
-                        layer.compute_g_inv(damping=self.damping)
+                state_dict = torch.load(filepath)
+                layer.load_state_dict(state_dict)
+                if (
+                    compute_inverses
+                    and cast(
+                        GPTNeoXAssignment,
+                        self._assignment,
+                    ).factor_worker(name, 'A')
+                    == get_rank()
+                ):
+                    layer.compute_a_inv(damping=self.damping)
+                    layer.compute_g_inv(damping=self.damping)
 
     def save_factors_to_dir(self) -> None:
         """Save factors to `factor_checkpoint_dir`.
